@@ -1534,6 +1534,43 @@ class Runner:
             out.setdefault(p, []).append(ans)
         return out
 
+    PARTIAL_DATA = {
+        "summary": '<C:calendar-data><C:comp name="VCALENDAR"><C:comp name="VEVENT"><C:prop name="SUMMARY"/><C:prop name="UID"/></C:comp><C:comp name="VTODO"><C:prop name="SUMMARY"/></C:comp></C:comp></C:calendar-data>',
+        "version-only": '<C:calendar-data><C:comp name="VCALENDAR"><C:prop name="VERSION"/></C:comp></C:calendar-data>',
+        "novalue": '<C:calendar-data><C:comp name="VCALENDAR"><C:allprop/><C:comp name="VEVENT"><C:prop name="DESCRIPTION" novalue="yes"/><C:prop name="DTSTART"/></C:comp></C:comp></C:calendar-data>',
+        "expand": '<C:calendar-data><C:expand start="20200101T000000Z" end="20210101T000000Z"/></C:calendar-data>',
+        "limit": '<C:calendar-data><C:limit-recurrence-set start="20200101T000000Z" end="20200201T000000Z"/></C:calendar-data>',
+        "card-fn": '<A:address-data><A:prop name="FN"/><A:prop name="UID"/></A:address-data>',
+        "card-version": '<A:address-data content-type="text/vcard" version="3.0"><A:prop name="VERSION"/></A:address-data>',
+    }
+
+    def op_PARTIAL(self, st):
+        """A REPORT that asks for a *part* of the data (calendar-data / address-data with children).  It is a
+        read; what matters is that later plain requests still get the whole resource."""
+        coll = SLOTS[st["coll"]]
+        mc = self.model.colls.get(coll)
+        self.last = {"op": "PARTIAL", "ack": False, "coll": coll}
+        if mc is None or mc.kind not in ("calendar", "addressbook"):
+            return set()
+        cal = mc.kind == "calendar"
+        shape = st["shape"] if (st["shape"].startswith("card")) != cal else ("summary" if cal else "card-fn")
+        data = self.PARTIAL_DATA[shape]
+        names = [n for n in sorted(mc.members)]
+        if st.get("via") == "query":
+            root = "C:calendar-query" if cal else "A:addressbook-query"
+            flt = dav.MATCH_ALL_CAL if cal else ""
+            body = f'<?xml version="1.0" encoding="utf-8"?><{root} {dav.NSDECL}><D:prop><D:getetag/>{data}</D:prop>{flt}</{root}>'.encode()
+        else:
+            root = "C:calendar-multiget" if cal else "A:addressbook-multiget"
+            hs = "".join(f"<D:href>{self.world.url(self.member_path(coll, n))}</D:href>" for n in names)
+            body = f'<?xml version="1.0" encoding="utf-8"?><{root} {dav.NSDECL}><D:prop><D:getetag/>{data}</D:prop>{hs}</{root}>'.encode()
+        r = self.req(st["fe"], "REPORT", coll + "/", [("Depth", "1"), dav.XML_CT], body)
+        self.stats[f"partial:{shape}:{r.status}"] += 1
+        if r.status >= 500:
+            self.stats["5xx"] += 1
+            self.note5xx(st, r)
+        return set()
+
     def op_MULTIGET(self, st):
         coll = SLOTS[st["coll"]]
         mc = self.model.colls.get(coll)
